@@ -363,7 +363,7 @@ def replay(ctx, case):
 
 
 SUBS = [
-    Sub("pairs", run_pairs, replay, quick=1200, thorough=120000),
+    Sub("pairs", run_pairs, replay, quick=1200, thorough=60000),
     Sub("many_shards", run_many_shards, replay, quick=84, thorough=8000,
         min_per_shard=6),
     Sub("perm_exhaustive", run_exhaustive, replay, quick=1, thorough=1,
